@@ -14,6 +14,8 @@ Decided:
  G5 window extent: wherever a typed slice window is built from a capability's byte length
     (slice_from_raw_parts(ptr, f(length, size_of T))), the element count is folded over (length, size_of T):
     count * size_of T <= length, so the length the accessors bounds-check against never exceeds the device's region.
+ G6 generation register: each transport's read_config_generation reads exactly the ConfigGeneration register (MMIO 0x0fc,
+    PCI common configuration offset 21) - shared register traces of C10.M2 / C11.W3.
  G4 direction typing (thorough tier, compile-fail witnesses): read_config! on a WriteOnly field and write_config! on a
     ReadOnly field do not type-check.
 """
@@ -36,6 +38,20 @@ def run(F, R):
     g5_window_extent(F, R)
     g2_retry(F, R)
     g3_wrapped(F, R)
+    g6_generation_register(F, R)
+
+
+def g6_generation_register(F, R):
+    """The generation the retry loop compares is the device's ConfigGeneration register (register traces shared with
+    C10.M2 / C11.W3): a transport that reads another register there never sees a change and never retries."""
+    from . import C10 as _c10, C11 as _c11
+    _gen = lambda inst: 'read_config_generation' in inst
+    _c10.ONLY_OPS = {'read_config_generation'}
+    try:
+        _c10.run(F, RuleProxy(R, {'M2': 'G6'}, only=_gen))
+    finally:
+        _c10.ONLY_OPS = None
+    _c11.run(F, RuleProxy(R, {'W3': 'G6'}, only=_gen))
 
 
 def accessor_impls(F):
